@@ -144,7 +144,9 @@ def get_constraint_pre_removed_options(choice_constraint: ChoiceConstraint, perm
         return []
 
     # For permutations, if there are more choices that the max nr of options, there is no way to make a permutation
-    if choice_constraint.type == ChoiceConstraintType.PERMUTATION:
+    # We can only apply this if all choices are permanent, otherwise they might never be active at the same time
+    if choice_constraint.type == ChoiceConstraintType.PERMUTATION \
+            and all(node in permanent_nodes for node in choice_constraint.nodes):
         n_dec = len(choice_constraint.nodes)
         n_opt_max = max([len(options) for options in choice_constraint.options])
 
